@@ -562,10 +562,13 @@ func (m *srcMode) decode(i int64) srcCase {
 		}
 		gi, si := m.nc[k].gi, m.nc[k].si
 		s, n := nestSource(gi, si)
+		if !m.allOpt && strings.Contains(nestGens[gi].name, "recursion") {
+			op |= 32 // quick tier: one combination per case; recursion must be allowed to go deep
+		}
 		return srcCase{Cat: "nest:" + nestGens[gi].name, Recipe: fmt.Sprintf("generator %s, n=%d, %d bytes", nestGens[gi].name, n, len(s)), Opts: op, Src: s}
 	}
 	j := i - m.nNest
-	r := hx.NewRand(m.o.seed*104729 + uint64(j))
+	r := hx.NewRand(m.o.seed*104729 + uint64(j)).Split()
 	op := r.Intn(64)
 	switch j % 4 {
 	case 0, 1:
@@ -592,10 +595,16 @@ func (m *srcMode) Run(i int64) string {
 		Load: func(t *starlark.Thread, module string) (starlark.StringDict, error) {
 			return starlark.StringDict{"sym": starlark.MakeInt(1), "a": starlark.MakeInt(2)}, nil
 		}}
-	thread.SetMaxExecutionSteps(stepBudget)
+	budget := uint64(stepBudget)
+	if strings.Contains(c.Cat, "recursion") {
+		// enough steps to reach the interpreter's own frame limit (100 000 frames
+		// when FileOptions.Recursion is set) before the budget stops the program
+		budget = 8000000
+	}
+	thread.SetMaxExecutionSteps(budget)
 	pre := starlark.StringDict{"struct": starlark.NewBuiltin("struct", starlarkstruct.Make), "json": sjson.Module, "math": smath.Module, "time": stime.Module}
 	_, err := starlark.ExecFileOptions(fileOptions(c.Opts), thread, "c02.star", c.Src, pre)
-	if thread.ExecutionSteps() > stepBudget+1 {
+	if thread.ExecutionSteps() > budget+1 {
 		return "panic:step budget overrun: " + fmt.Sprint(thread.ExecutionSteps())
 	}
 	if err != nil {
